@@ -829,10 +829,15 @@ void GridFourier::setAnisotropicRefinement(TypeDepth type, int min_growth, int o
     std::vector<int> weights;
     estimateAnisotropicCoefficients(type, output, weights);
 
+    // when every direction is limited and the top tensor allowed by the limits is present, no further growth is possible
+    auto saturated = [&]()->bool{
+        if (level_limits.empty() || std::any_of(level_limits.begin(), level_limits.end(), [](int l)->bool{ return (l < 0); })) return false;
+        return !tensors.missing(level_limits) || (!updated_tensors.empty() && !updated_tensors.missing(level_limits));
+    };
     int level = 0;
     do{
         updateGrid(++level, type, weights, level_limits);
-    }while(getNumNeeded() < min_growth);
+    }while(getNumNeeded() < min_growth && !saturated());
 }
 
 void GridFourier::clearRefinement(){
